@@ -26,13 +26,31 @@ Proof.
     rewrite Z.add_mod_idemp_l by lia. reflexivity.
 Qed.
 
-Lemma atoi_i32_itoa n : n < 2147483648 -> fast_atoi_i32 (itoa_N n) = Z.of_N n.
+Lemma atoi_i32_orig_itoa n : n < 2147483648 -> fast_atoi_i32_orig (itoa_N n) = Z.of_N n.
 Proof.
-  intros H. unfold fast_atoi_i32, fast_atoi_mod. rewrite cstr_digits by apply itoa_digits.
+  intros H. unfold fast_atoi_i32_orig, fast_atoi_mod. rewrite cstr_digits by apply itoa_digits.
   change 0%Z with (Z.of_N 0 mod two32)%Z.
   rewrite (fold_atoi two32 ltac:(reflexivity) _ 0 n (itoa_digits n) (dec_val_itoa n)).
   unfold to_i32, two32, two31. rewrite Z.mod_mod by lia. rewrite Z.mod_small by lia.
   replace (Z.of_N n <? 2147483648)%Z with true by (symmetry; apply Z.ltb_lt; lia). reflexivity.
+Qed.
+
+Lemma atoi_i32_itoa n : n < 2147483648 -> fast_atoi_i32 (itoa_N n) = Z.of_N n.
+Proof.
+  intros H. rewrite <- (atoi_i32_orig_itoa n H). unfold fast_atoi_i32, fast_atoi_i32_orig, fast_atoi_mod.
+  rewrite cstr_digits by apply itoa_digits. pose proof (itoa_digits n) as Hd.
+  destruct (itoa_N n) as [|d ds]; [reflexivity|]. pose proof (Forall_inv Hd) as Hx. cbn beta in Hx.
+  unfold is_digit in Hx. apply andb_prop in Hx. destruct Hx as [Hx _]. apply N.leb_le in Hx.
+  replace (d =? 45) with false by (symmetry; apply N.eqb_neq; lia). reflexivity.
+Qed.
+
+Lemma render_default_orig_ok c : c_render c = render_default_orig -> render_ok c.
+Proof.
+  intros E. split.
+  - intros ty n Hty Hn. rewrite E. unfold render_default_orig. rewrite Hty. rewrite atoi_i32_orig_itoa by assumption.
+    unfold itoa_Z. replace (Z.of_N n <? 0)%Z with false by (symmetry; apply Z.ltb_ge; lia).
+    rewrite N2Z.id. reflexivity.
+  - intros v. rewrite E. reflexivity.
 Qed.
 
 Lemma render_default_ok c : c_render c = render_default -> render_ok c.
